@@ -428,8 +428,7 @@ def units_cases(ctx, rebound, clib):
     U = rebound.units
     L, T, M = list(U.lengths_SI), list(U.times_SI), list(U.masses_SI)
     triples = [(l, t, m) for l in L for t in T for m in M]
-    if not ctx.thorough:
-        triples = rng.sample(triples, min(200, len(triples)))
+    rng.shuffle(triples)      # all 1785 triples in both tiers
     terms = []
     info = []
     pyfail = []
@@ -470,18 +469,120 @@ def units_cases(ctx, rebound, clib):
     info.append(("table", ("G_SI", ""), U.G_SI))
     terms.append("(List.length lengths_SI =? %d)%%nat && (List.length times_SI =? %d)%%nat && (List.length masses_SI =? %d)%%nat" % (len(L), len(T), len(M)))
     info.append(("table sizes", None, None))
-    body = ("From Coq Require Import List ZArith NArith String Bool.\nFrom RV Require Import Gen.Units C20.Units C20.UnitsRun C20.UnitsState.\n"
-            "Import ListNotations.\nOpen Scope string_scope.\nOpen Scope bool_scope.\n"
-            "Definition cases : list bool := [\n" + ";\n".join(terms) + "].\nEval vm_compute in (bad_bools cases).\n")
-    ok, out = vlib.coq_eval("c20_units", body)
-    bad = vlib.parse_coq_list_nat(out) if ok else None
+    head = ("From Coq Require Import List ZArith NArith String Bool.\nFrom RV Require Import Gen.Units C20.Units C20.UnitsRun C20.UnitsState.\n"
+            "Import ListNotations.\nOpen Scope string_scope.\nOpen Scope bool_scope.\n")
+    chunk = 450
+    jobs = [("c20_units_%d" % (c0 // chunk), head + "Definition cases : list bool := [\n" + ";\n".join(terms[c0:c0 + chunk]) +
+             "].\nEval vm_compute in (bad_bools cases).\n") for c0 in range(0, len(terms), chunk)]
+    ok, bad, out = True, [], ""
+    for (name, okj, outj), c0 in zip(vlib.coq_eval_many(jobs), range(0, len(terms), chunk)):
+        b = vlib.parse_coq_list_nat(outj) if okj else None
+        if b is None:
+            ok = False; out = outj; bad = None; break
+        bad += [c0 + x for x in b]
     return ok, bad, info, pyfail, out
+
+
+# ----------------------------------------------------------------------------- unit conversion chain, binary64, every ordered pair
+UHEAD = ("From Coq Require Import List ZArith String PrimFloat.\nFrom RV Require Import Common.Num Common.FloatNum Gen.Units C20.Units C20.UnitsRun.\n"
+         "Import ListNotations.\nOpen Scope float_scope.\n")
+MEMBERS = ["m", "x", "y", "z", "r", "vx", "vy", "vz", "ax", "ay", "az"]
+
+
+def fpairs(xs):
+    return "[" + "; ".join("(%s, %s)" % (vlib.fhex(a), vlib.fhex(b)) for a, b in xs) + "]"
+
+
+def unit_chain_cases(ctx, rebound):
+    """(name, coq list-of-float term, expected list, labels).  Python's own float evaluation of rebound/units.py is the implementation side;
+    the model side is the translated bodies at binary64 with libm pow supplied as a table."""
+    rng = ctx.rng
+    U = rebound.units
+    Lk, Tk, Mk = list(U.lengths_SI), list(U.times_SI), list(U.masses_SI)
+    Lv, Tv, Mv = [U.lengths_SI[k] for k in Lk], [U.times_SI[k] for k in Tk], [U.masses_SI[k] for k in Mk]
+    t2 = [(v, v ** 2) for v in sorted(set(Tv))]
+    t3 = [(v, v ** 3) for v in sorted(set(Lv + [149597870700.0]))]
+    T2, T3 = fpairs(t2), fpairs(t3)
+    pre = "Definition t2 := %s.\nDefinition t3 := %s.\nDefinition Ls := %s.\nDefinition Ts := %s.\nDefinition Ms := %s.\n" % (
+        T2, T3, vlib.flist(Lv), vlib.flist(Tv), vlib.flist(Mv))
+
+    def rx():
+        return rng.gauss(0, 1) * 10 ** rng.uniform(-6, 6) if rng.random() < 0.95 else rng.choice([0.0, 1.0, -1.0, 1e-300, 1e300])
+    jobs = []
+    # tables as Python evaluated them
+    jobs.append(("tables", pre, "(tables_f_all t2 t3)", [U.G_SI] + Lv + Tv + Mv, ["G_SI"] + Lk + Tk + Mk))
+    xs = [rx() for _ in Mk for _ in Mk]
+    jobs.append(("mass", pre, "(mass_all %s Ms)" % vlib.flist(xs), [U.convert_mass(x, a, b) for x, (a, b) in zip(xs, [(a, b) for a in Mk for b in Mk])],
+                 [(a, b) for a in Mk for b in Mk]))
+    xs = [rx() for _ in Lk for _ in Lk]
+    jobs.append(("length", pre, "(length_all %s Ls)" % vlib.flist(xs), [U.convert_length(x, a, b) for x, (a, b) in zip(xs, [(a, b) for a in Lk for b in Lk])],
+                 [(a, b) for a in Lk for b in Lk]))
+    quads = [(lo, ln, to, tn) for lo in Lk for ln in Lk for to in Tk for tn in Tk]
+    for nm, fn in (("vel", U.convert_vel), ("acc", U.convert_acc)):
+        xs = [rx() for _ in quads]
+        exp = [fn(x, lo, to, ln, tn) for x, (lo, ln, to, tn) in zip(xs, quads)]
+        jobs.append((nm, pre, "(%s_all %s%s Ls Ts)" % (nm, "t2 " if nm == "acc" else "", vlib.flist(xs)), exp, quads))
+    trip = [(l, t, m) for l in Lk for t in Tk for m in Mk]
+    jobs.append(("G", pre, "(G_all t2 t3 %s Ls Ts Ms)" % vlib.fhex(U.G_SI), [U.convert_G(x) for x in trip], trip))
+    # whole particles through Simulation.convert_particle_units
+    npart = ctx.scale(120, 1500)
+    terms, exps, labs = [], [], []
+    for k in range(npart):
+        u0 = (rng.choice(Lk), rng.choice(Tk), rng.choice(Mk)); u1 = (rng.choice(Lk), rng.choice(Tk), rng.choice(Mk))
+        vals = [abs(rx()) if c in ("m", "r") else rx() for c in MEMBERS]
+        sim = rebound.Simulation(); sim.units = u0
+        sim.add(m=vals[0], x=vals[1], y=vals[2], z=vals[3], r=vals[4], vx=vals[5], vy=vals[6], vz=vals[7])
+        p = sim.particles[0]; p.ax, p.ay, p.az = vals[8], vals[9], vals[10]
+        sim.convert_particle_units(*u1)
+        terms.append("(conv_particle t2 %s %s %s %s %s %s %s ++ [convert_G_pw FNum (ptab t2) (ptab t3) %s %s %s %s])%%list" % (
+            vlib.flist(vals), vlib.fhex(U.lengths_SI[u0[0]]), vlib.fhex(U.lengths_SI[u1[0]]), vlib.fhex(U.times_SI[u0[1]]),
+            vlib.fhex(U.times_SI[u1[1]]), vlib.fhex(U.masses_SI[u0[2]]), vlib.fhex(U.masses_SI[u1[2]]),
+            vlib.fhex(U.G_SI), vlib.fhex(U.lengths_SI[u1[0]]), vlib.fhex(U.times_SI[u1[1]]), vlib.fhex(U.masses_SI[u1[2]])))
+        exps.append([getattr(sim.particles[0], c) for c in MEMBERS] + [sim.G])
+        labs.append((u0, u1))
+        ctx.case(key=("convert_particle_units", u0, u1))
+    return jobs, pre, (terms, exps, labs)
+
+
+def eval_unit_chain(ctx, rebound):
+    jobs, pre, (pterms, pexps, plabs) = unit_chain_cases(ctx, rebound)
+    cj = []
+    for nm, pre_, term, exp, labels in jobs:
+        body = UHEAD + pre_ + "Definition got := %s.\nDefinition want := %s.\n" % (term, vlib.flist(exp))
+        body += ("Eval vm_compute in (Nat.eqb (List.length got) (List.length want), "
+                 "bad_bools (map (fun p => same (fst p) (snd p)) (combine got want))).\n")
+        cj.append(("c20_uchain_" + nm, body))
+    body = UHEAD + pre + "Definition cases : list (list float * list float) := [\n" + ";\n".join(
+        "(%s, %s)" % (t, vlib.flist(e)) for t, e in zip(pterms, pexps)) + "].\nEval vm_compute in (bad_cases cases).\n"
+    cj.append(("c20_uchain_particles", body))
+    res = vlib.coq_eval_many(cj)
+    ok_all, fails, n = True, [], 0
+    import re as _re
+    for (name, ok, out), job in zip(res[:-1], jobs):
+        m = _re.search(r"=\s*\((true|false),\s*(\[[^\]]*\])\)", out, _re.S) if ok else None
+        if not m or m.group(1) != "true":
+            ok_all = False; fails.append((name, out[-600:])); continue
+        bad = [int(x) for x in _re.findall(r"\d+", m.group(2))]
+        n += len(job[3])
+        for b in bad[:5]:
+            fails.append((name, job[4][b]))
+        for lab in job[4]:
+            ctx.case(key=("uchain", job[0], str(lab)))
+    name, ok, out = res[-1]
+    bad = vlib.parse_coq_list_nat(out) if ok else None
+    if bad is None:
+        ok_all = False; fails.append((name, out[-600:]))
+    else:
+        n += len(pterms)
+        fails += [("convert_particle_units", plabs[b]) for b in bad[:5]]
+    return ok_all and not fails, fails, n
 
 
 def run(ctx):
     libdir = ctx.lib()
     ctx.regen("translate_units.py")
     proved = ctx.prove("C20", extra_targets=["C20/Run.vo", "C20/UnitsRun.vo", "C20/UnitsState.vo"])
+    ctx.log("proofs built: %s" % proved)
     sys.path.insert(0, libdir)
     import rebound
     clib = vlib.load_clib(libdir)      # private handle: argtypes set here do not leak into rebound's python layer
@@ -522,17 +623,21 @@ def run(ctx):
     ctx.obligation("correspondence:C20 sim.G (all sampled triples), table doubles and reb_hash(unit names) == exact tables / Murmur model in Coq (%d checks)"
                    % len(info), oku and badu == [] and not upy,
                    ("failing: %s %s" % ([info[b] for b in (badu or [])[:6]], upy[:3])) if oku else out[-1500:])
-    allok = ok1 and ok2 and ok3 and oku and not (bad1 or bad2 or bad3 or badu or pyfail or upy)
-    ctx.traces = (len(rc) + len(sc) + len(fc) + len(info)) if allok else 0
+    okc, cfails, nchain = eval_unit_chain(ctx, rebound)
+    ctx.obligation("correspondence:C20 unit conversion chain at binary64 (translated convert_mass/length/vel/acc/G with libm pow as oracle, table entries as "
+                   "Python evaluates them, units_convert_particle through Simulation.convert_particle_units) == Python's results bit-for-bit: every ordered "
+                   "pair of mass, length, (length,time) units, every triple for G, %d values" % nchain, okc, "mismatching: %s" % (cfails[:6],))
+    allok = ok1 and ok2 and ok3 and oku and okc and not (bad1 or bad2 or bad3 or badu or pyfail or upy)
+    ctx.traces = (len(rc) + len(sc) + len(fc) + len(info) + nchain) if allok else 0
 
+    ctx.log("correspondences done")
     # ---- searcher (library only)
     c20_search.search(ctx, rebound, clib, Rot, V3)
 
     ctx.rule = ("rotations: random/degenerate vectors (axis-aligned, signed zeros, exactly and nearly antiparallel or parallel pairs, zero vectors) and "
                 "quaternions (unit, non-unit, zero) through every exported reb_vec3d_*/reb_rotation_* constructor and operation; frames: random "
                 "simulations N_real 1..7 with zero-mass bodies, with 0-3 first-order sets (incl. test-particle sets) and 0-2 second-order sets; "
-                "units: length x time x mass triples (all 1785 in the searcher and in the thorough correspondence; 200 random in the quick "
-                "correspondence) in random order/case. A case is distinct by (operation, index) and non-trivial when it executes arithmetic "
+                "units: all 1785 length x time x mass triples (searcher and correspondence) in random order/case. A case is distinct by (operation, index) and non-trivial when it executes arithmetic "
                 "(all do; identity/zero inputs included deliberately)")
     ctx.assumptions += [
         "theorems are over Coq reals (exact arithmetic); the binary64 instance of the same Gallina terms is what is compared with the C code",
